@@ -25,13 +25,16 @@ use quandary::server::{Server, Transport};
 
 const ROUNDS: usize = 60;
 
-fn rounds(rate: u32, window: u32, slip: usize, size: usize, kind: &str, edns: bool, bursts: &[usize], cat: &std::sync::Arc<Cat>) -> String {
+fn rounds(rate: u32, window: u32, slip: usize, size: usize, kind: &str, edns: bool, seed: u64, bursts: &[usize], cat: &std::sync::Arc<Cat>) -> String {
     let p = match params(rate, rate, rate, window, slip, size, 24, 56) {
         Ok(p) => p,
         Err(e) => return format!("err {e}"),
     };
     let mut server = Server::new(cat.clone());
     server.set_rrl_params(Some(p));
+    if seed % 2 == 1 {
+        server.verif_rrl_age(Duration::from_secs(5)); // an old table: every round takes over a slot last touched 5 s ago
+    }
     let server = &server;
     let q = query(kind, edns, 0x2828);
     let q = &q;
@@ -116,12 +119,12 @@ fn main() {
         let rate = n(0) as u32;
         let slip = n(2) as usize;
         let kind = f[4];
-        let edns = f[5] == "1";
+        let edns = f[5] == "1" || f[4].starts_with('v');
         let mode = n(6);
         let seed = n(7);
         let bursts: Vec<usize> = f[8].split(',').map(|b| b.parse().unwrap()).collect();
         if mode == 4 {
-            return rounds(rate, n(1) as u32, slip, n(3) as usize, kind, edns, &bursts, &cat);
+            return rounds(rate, n(1) as u32, slip, n(3) as usize, kind, edns, seed, &bursts, &cat);
         }
         for _attempt in 0..12 {
             let p = match params(rate, rate, rate, n(1) as u32, slip, n(3) as usize, 24, 56) {
@@ -130,6 +133,13 @@ fn main() {
             };
             let mut server = Server::new(cat.clone());
             server.set_rrl_params(Some(p));
+            // two thirds of the runs: the table is NOT brand-new - every slot was last touched 2 s / 1 h ago (as on a
+            // server that has been up for a while), so the burst TAKES OVER an old slot instead of a fresh one
+            match seed % 3 {
+                1 => server.verif_rrl_age(Duration::from_secs(2)),
+                2 => server.verif_rrl_age(Duration::from_secs(3600)),
+                _ => {}
+            }
             let server = &server;
             let q = query(kind, edns, 0x2828);
             let q = &q;
